@@ -57,9 +57,23 @@ impl C14 {
         let mut code = vec![0x0f, 0x05];
         code.extend_from_slice(&[0x90; 14]);
         let Call::Ok(mut ax) = call(|| Axecutor::new(&code, CODE_AT, CODE_AT)) else { return };
+        // the handler is installed alone, together with others, or by a later call that repeats earlier names
+        let install = rng.below(6);
         let setup = call(|| {
             ax.mem_init_area(BUF_AT, vec![SENT; BUF_LEN as usize])?;
-            ax.handle_syscalls(vec![Syscall::Pipe])?;
+            ax.mem_init_area(BUF_AT + BUF_LEN, vec![SENT; 0x100])?;
+            match install {
+                0 => {
+                    ax.handle_syscalls(vec![Syscall::Exit])?;
+                    ax.handle_syscalls(vec![Syscall::Exit, Syscall::Pipe])?;
+                }
+                1 => ax.handle_syscalls(vec![Syscall::Brk, Syscall::Pipe, Syscall::Exit])?,
+                2 => {
+                    ax.handle_syscalls(vec![Syscall::Brk, Syscall::ArchPrctl])?;
+                    ax.handle_syscalls(vec![Syscall::ArchPrctl, Syscall::Pipe, Syscall::Brk])?;
+                }
+                _ => ax.handle_syscalls(vec![Syscall::Pipe])?,
+            }
             // a user hook registered after the built-in handlers: sees whatever they leave unhandled
             ax.hook_before_mnemonic_native(SupportedMnemonic::Syscall, &|ax: &mut Axecutor, _| {
                 let rax = ax.reg_read_64(SR::RAX)?;
@@ -145,6 +159,37 @@ impl C14 {
                     };
                     let data: Vec<u8> = (0..n).map(|i| (mix64(stream + i) & 0xff) as u8).collect();
                     stream += n;
+                    // sometimes the source buffer starts in the buffer area and ends in the area right behind it
+                    // (unevenly split): the emulator documents that no access spans two areas, so the write may
+                    // fail - but if it reports n bytes, they must be the n bytes the guest had at [buf, buf+n)
+                    if n >= 3 && n < 0x100 && rng.below(6) == 0 {
+                        let head = 1 + rng.below(n - 1);
+                        let buf = BUF_AT + BUF_LEN - head;
+                        if !call(|| {
+                            ax.mem_write_bytes(buf, &data[..head as usize])?;
+                            ax.mem_write_bytes(BUF_AT + BUF_LEN, &data[head as usize..])
+                        })
+                        .is_ok()
+                        {
+                            continue;
+                        }
+                        let wr = pipes[pi].wr;
+                        col.publish("pipe", "write from a buffer spanning two areas");
+                        let r = sys(&mut ax, 1, wr, buf, n);
+                        col.eval(1);
+                        col.distinct_key("write|straddling-source");
+                        tail.push(format!("write(pipe{}, {} bytes, source spans two areas {}+{})", pi, n, head, n - head));
+                        match r {
+                            Call::Ok(v) if v == n => {
+                                pipes[pi].q.extend(data.iter());
+                                pipes[pi].written += n;
+                            }
+                            Call::Ok(v) => return fail(col, "write-returned-other-count", format!("write of {} bytes returned {:#x}", n, v), &tail),
+                            Call::Panic(_) => return fail(col, &format!("panic:{}", r.panic_key()), r.describe(), &tail),
+                            Call::Err { .. } => col.count("write_from_two_areas_refused", 1),
+                        }
+                        continue;
+                    }
                     if !call(|| ax.mem_write_bytes(buf, &data)).is_ok() && n > 0 {
                         continue;
                     }
@@ -284,7 +329,8 @@ impl C14 {
                             break f;
                         }
                     };
-                    let nr = *rng.pick(&[0u64, 1, 0, 1, 39, 60, 3]);
+                    // (exit is another handler's business when the Exit handler was installed alongside)
+                    let nr = if install <= 1 { *rng.pick(&[0u64, 1, 0, 1, 39, 3, 3]) } else { *rng.pick(&[0u64, 1, 0, 1, 39, 60, 3]) };
                     let before = PROBE_LOG.with(|l| l.borrow().len());
                     let r = sys(&mut ax, nr, fd, BUF_AT + 0x100, 8);
                     col.eval(1);
